@@ -28,6 +28,7 @@ func init() {
 		Rule{ID: "R18g", Doc: "Close closes every registered connection", Floor: 2, Run: r18g},
 		Rule{ID: "R18h", Doc: "resources kept by a constructor have a closing owner", Floor: 8, Run: r18h},
 		Rule{ID: "R18f", Doc: "start-up does not panic on configuration content: bounds of every index/slice/precondition in the functions reachable only from configuration loading", Floor: 60, Run: r18f},
+		Rule{ID: "R14d", Doc: "a pooled connection reports Closed exactly when it is closed (the pool forgets, without closing, what reports closed; shared with C14)", Floor: 5, AllVariants: true, Run: r14d},
 	)
 }
 
